@@ -2509,15 +2509,21 @@ theorem elected_cands {S : List Cand} : ∀ (el : Elected), (∀ km ∈ el, ∃ 
 theorem selShape_nil (cands : List Cand) : SelShape cands 0 [] :=
   ⟨rfl, by simp, by simp, by simp [electedOf], by simp, by simp⟩
 
-/-- **Allocated score shape (partial).**  Whenever `AllocatedScoreSelector.evaluate(votes, n)` returns, the list has the
-    selection shape for its own length `j ≤ n` (distinct graded candidates, possibly followed by one tie of graded
-    candidates not elected), and `j = n` — unless the last entry is a tie contesting `n - j + 1 ≥ 2` seats, which the
-    selector reports ONCE (it returns the keys of the distributor's dict): the list is then shorter than `n`.
-    Full statement (FALSE, `allocated_shape_witness`): `SelShape (scoreCands votes) n (ks.map keySlot)`. -/
-theorem allocated_shape_partial (quota : Rat → Nat → Rat) (votes : SProfile) (n : Nat) (ks : List Key)
-    (h : allocatedSelector quota votes n = .ok ks) :
-    ∃ j, j ≤ n ∧ SelShape (scoreCands votes) j (ks.map keySlot) ∧
-      (j = n ∨ ∃ T, (ks.map keySlot).getLast? = some (Slot.tie T) ∧ 2 ≤ n - j + 1 ∧ n - j + 1 < T.length) := by
+theorem flatMap_replicate_ones (e : Elected) (h : ∀ km ∈ e, km.2 = 1) :
+    e.flatMap (fun p => List.replicate p.2 p.1) = e.map (·.1) := by
+  induction e with
+  | nil => rfl
+  | cons km rest ih =>
+    rw [List.flatMap_cons, List.map_cons, ih (fun x hx => h x (List.mem_cons_of_mem _ hx)), h km List.mem_cons_self]
+    rfl
+
+/-- **Allocated score shape (full since fix 4ae6629).**  Whenever `AllocatedScoreSelector.evaluate(votes, n)` returns, the
+    list has the selection shape for `n` seats: distinct graded candidates, possibly followed by ONE tie of graded
+    candidates not elected, repeated once per seat it contests and larger than those seats.  (Before the repair the
+    selector returned the keys of the distributor's dict, so a tie for several seats was listed once:
+    `prefix_allocated_shape_witness`.) -/
+theorem allocated_shape (quota : Rat → Nat → Rat) (votes : SProfile) (n : Nat) (ks : List Key)
+    (h : allocatedSelector quota votes n = .ok ks) : SelShape (scoreCands votes) n (ks.map keySlot) := by
   unfold allocatedSelector at h
   simp only [bind, Except.bind] at h
   split at h
@@ -2531,10 +2537,13 @@ theorem allocated_shape_partial (quota : Rat → Nat → Rat) (votes : SProfile)
       intro bw hbw p hp
       obtain ⟨bn, hbn, rfl⟩ := List.mem_map.mp hbw
       exact ⟨mem_scoreCands.mpr ⟨bn, hbn, p, hp, rfl⟩, by simp⟩
+    have hones : ∀ (el : Elected), (∀ km ∈ el, ∃ c, km = (Key.cand c, 1) ∧ c ∈ scoreCands votes) → ∀ km ∈ el, km.2 = 1 := by
+      intro el hel km hkm
+      obtain ⟨c, hc, _⟩ := hel km hkm
+      rw [hc]
     rcases allocLoop_out _ _ _ _ _ _ he hinit with ⟨hnd, hc, hl⟩ | ⟨el, T, rem, he', hnd, hc, htot, hr1, hrT, hT⟩
     · obtain ⟨cs, h1, h2, h3⟩ := elected_cands e hc
-      refine ⟨n, le_refl n, ?_, Or.inl rfl⟩
-      rw [h1, List.map_map]
+      rw [flatMap_replicate_ones e (hones e hc), h1, List.map_map]
       have hcsnd : cs.Nodup := by
         rw [h1] at hnd
         exact List.Nodup.of_map _ hnd
@@ -2545,39 +2554,41 @@ theorem allocated_shape_partial (quota : Rat → Nat → Rat) (votes : SProfile)
       have hcsnd : cs.Nodup := by
         rw [h1] at hnd
         exact List.Nodup.of_map _ hnd
-      have hB : SelShape T 1 [Slot.tie T] := by
-        refine ⟨rfl, by simp, ?_, by simp [electedOf], ?_, by simp⟩
+      have hB : SelShape T rem (List.replicate rem (Slot.tie T)) := by
+        refine ⟨by simp, ?_, ?_, ?_, ?_, ?_⟩
+        · intro c hc'; have := (List.mem_replicate.mp hc').2; cases this
         · intro T' hT' c hc'
-          simp only [List.mem_singleton] at hT'
-          injection hT' with hT'
-          subst hT'
+          have := (List.mem_replicate.mp hT').2
+          injection this with this
+          subst this
           exact hc'
+        · have : electedOf (List.replicate rem (Slot.tie T)) = [] := electedOf_replicate_tie rem T
+          rw [this]; exact List.nodup_nil
         · intro T' hT'
-          simp only [List.mem_singleton] at hT'
-          injection hT' with hT'
-          subst hT'
-          simp
-          omega
-      have hslots : (e.map (·.1)).map keySlot = cs.map Slot.cand ++ [Slot.tie T] := by
-        rw [he', List.map_append, h1, List.map_append, List.map_map]
-        rfl
-      rw [hslots]
-      refine ⟨cs.length + 1, by omega, ?_, ?_⟩
-      · exact SelShape.prependCands (cands := scoreCands votes) (w := cs) hB (fun c hc' => (hT c hc').1) h2 hcsnd
-          (fun c hc' hcw => (hT c hc').2 (by rw [h1]; exact List.mem_map.mpr ⟨c, hcw, rfl⟩))
-      · by_cases hr : rem = 1
-        · left; omega
-        · right
-          refine ⟨T, by simp, by omega, ?_⟩
-          have : n - (cs.length + 1) + 1 = rem := by omega
-          rw [this]
+          have := (List.mem_replicate.mp hT').2
+          injection this with this
+          subst this
+          rw [List.count_replicate_self]
           exact hrT
+        · intro T' _ c _ hc'; have := (List.mem_replicate.mp hc').2; cases this
+      have hslots : (e.flatMap (fun p => List.replicate p.2 p.1)).map keySlot =
+          cs.map Slot.cand ++ List.replicate rem (Slot.tie T) := by
+        rw [he', List.flatMap_append, flatMap_replicate_ones el (hones el hc), h1, List.map_append, List.map_map]
+        simp [keySlot, Function.comp_def]
+      rw [hslots]
+      have := SelShape.prependCands (cands := scoreCands votes) (w := cs) hB (fun c hc' => (hT c hc').1) h2 hcsnd
+          (fun c hc' hcw => (hT c hc').2 (by rw [h1]; exact List.mem_map.mpr ⟨c, hcw, rfl⟩))
+      have hn : cs.length + rem = n := by omega
+      rw [hn] at this
+      exact this
 
-/-- three candidates tied for two seats: the selector returns ONE entry (`[Tie{0,1,2}]`) — not two places; and a leader
-    followed by a three-way tie for two seats: two entries for three seats -/
-theorem allocated_shape_witness :
-    allocatedSelector Gen.Quota.hare [([(0, 5), (1, 5), (2, 5)], 3)] 2 = .ok [Key.tie [0, 1, 2]] ∧
-    allocatedSelector Gen.Quota.hare [([(0, 5), (1, 3), (2, 3), (3, 3)], 3)] 3 = .ok [Key.cand 0, Key.tie [1, 2, 3]] := by
+/-- (fixed by 4ae6629) three candidates tied for two seats: the tie now fills both places; a leader followed by a three-way
+    tie for two seats: three entries for three seats.  (The pre-repair selector answered `[Tie{0,1,2}]` resp.
+    `[0, Tie{1,2,3}]` — the keys of the dict; recorded as the fixed finding C08-allocated-score-tie-listed-once.) -/
+theorem allocated_shape_tie_fixed :
+    allocatedSelector Gen.Quota.hare [([(0, 5), (1, 5), (2, 5)], 3)] 2 = .ok [Key.tie [0, 1, 2], Key.tie [0, 1, 2]] ∧
+    allocatedSelector Gen.Quota.hare [([(0, 5), (1, 3), (2, 3), (3, 3)], 3)] 3 =
+      .ok [Key.cand 0, Key.tie [1, 2, 3], Key.tie [1, 2, 3]] := by
   constructor <;> decide +kernel
 
 /-- non-vacuity: a full run -/
